@@ -22,6 +22,7 @@
            bound <seed> <level>        long frames x high rates x consecutive out_data_bytes (multi-frame boundary scan)
            fill <seed> <level>         multi-frame VBR packets nearly filling max_data_bytes (sub-frames >= 253 bytes, +-8 sweep)
            mssweep <seed> <level>      multistream / projection, max_data_bytes 1..600 exhaustively at high rates
+           redsw <seed> <sessions>     redundancy signalling under tight budgets (forced SILK<->CELT / bandwidth switches)
            cvbr <seed> <n> <seconds>   constrained-VBR long-run totals, with setting histories before the measured segment (S4 only)
            silkrate                    compute_silk_rate_for_hybrid on a dense grid
            gentoc                      gen_toc on every legal argument tuple
@@ -746,6 +747,40 @@ static void run_fill(uint64_t seed, int level)
    }
 }
 
+/* redundancy signalling under tight budgets (same histories as c02_lockstep `redsw`): SILK-only NB/MB/WB at low rates, forced
+   SILK<->CELT switches and bandwidth changes, max_data_bytes +-16 around the previous packet's size */
+static void run_redsw(uint64_t seed, long sessions)
+{
+   vrng r; long s; r.s = seed * 0xE7037ED1A0B428DBULL + 53;
+   for (s = 0; s < sessions; s++) {
+      int fs = FSS[vbelow(&r, 5)], ch = 1 + vbelow(&r, 2), err, k, steps = vrange(&r, 20, 60), last = 0, silk = 1;
+      int bwmax = fs == 8000 ? 1101 : fs == 12000 ? 1102 : 1103, vbr = vbelow(&r, 2), kind = 1 + vbelow(&r, 5);
+      double phase = 0;
+      OpusEncoder *e = opus_encoder_create(fs, ch, vchance(&r, 70) ? OPUS_APPLICATION_VOIP : OPUS_APPLICATION_AUDIO, &err);
+      if (!e) continue;
+      opus_encoder_ctl(e, OPUS_SET_VBR(vbr)); opus_encoder_ctl(e, OPUS_SET_VBR_CONSTRAINT(vbelow(&r, 2)));
+      opus_encoder_ctl(e, OPUS_SET_BITRATE(6000 + (int)vbelow(&r, 18000) * ch));
+      opus_encoder_ctl(e, OPUS_SET_FORCE_MODE(MODE_SILK_ONLY));
+      opus_encoder_ctl(e, OPUS_SET_BANDWIDTH(1101 + (int)vbelow(&r, bwmax - 1100)));
+      opus_encoder_ctl(e, OPUS_SET_COMPLEXITY(vbelow(&r, 11)));
+      for (k = 0; k < steps; k++) {
+         int d = DUR400[3 + vbelow(&r, 4)], afs, out;
+         if (silk == 0) d = DUR400[2 + vbelow(&r, 2)];
+         afs = fs / 400 * d;
+         if (vchance(&r, 22)) { silk = !silk; opus_encoder_ctl(e, OPUS_SET_FORCE_MODE(silk ? MODE_SILK_ONLY : MODE_CELT_ONLY)); }
+         else if (vchance(&r, 12)) opus_encoder_ctl(e, OPUS_SET_BANDWIDTH(1101 + (int)vbelow(&r, bwmax - 1100)));
+         else if (vchance(&r, 8)) opus_encoder_ctl(e, OPUS_SET_BITRATE(6000 + (int)vbelow(&r, 18000) * ch));
+         else if (vchance(&r, 5)) { opus_encoder_ctl(e, OPUS_SET_FORCE_MODE(OPUS_AUTO)); silk = 1; }
+         if (vchance(&r, 10)) kind = 1 + vbelow(&r, 5);
+         out = 1500;
+         if (last > 3 && vchance(&r, 75)) { out = last + (vchance(&r, 50) ? vrange(&r, -16, 16) : -vrange(&r, 0, 3 * ((last + 19) / 20))); if (out < 2) out = 2; }
+         one_encode(&r, e, ch, fs, afs, out, kind, &phase);
+         if (g_last_ret > 0 && out == 1500) last = g_last_ret;
+      }
+      opus_encoder_destroy(e);
+   }
+}
+
 /* multistream / projection: max_data_bytes swept exhaustively over small values at high rates */
 static void run_mssweep(uint64_t seed, int level)
 {
@@ -822,6 +857,7 @@ int main(int argc, char **argv)
    else if (argc >= 4 && !strcmp(argv[1], "bound")) run_bound(strtoull(argv[2], 0, 10), atoi(argv[3]));
    else if (argc >= 4 && !strcmp(argv[1], "fill")) run_fill(strtoull(argv[2], 0, 10), atoi(argv[3]));
    else if (argc >= 4 && !strcmp(argv[1], "mssweep")) run_mssweep(strtoull(argv[2], 0, 10), atoi(argv[3]));
+   else if (argc >= 4 && !strcmp(argv[1], "redsw")) run_redsw(strtoull(argv[2], 0, 10), atol(argv[3]));
    else if (argc >= 5 && !strcmp(argv[1], "cvbr")) run_cvbr(strtoull(argv[2], 0, 10), atoi(argv[3]), atoi(argv[4]));
    else if (argc >= 2 && !strcmp(argv[1], "silkrate")) run_silkrate();
    else if (argc >= 2 && !strcmp(argv[1], "gentoc")) run_gentoc();
